@@ -53,6 +53,29 @@ theorem step_recovering (c : Cfg) (b : Brk) (e : Ev) (h : b.state = .recovering)
       · show (b.rc.allow t).2.denied = _
         rw [f4]; cases (b.rc.allow t).1 <;> simp
       · intro t0 ht0 hr; exact allow_ramp _ _ (ramp_mono _ ht0 hr)
+  | record t code =>
+    obtain ⟨_, f2, f3, f4, f5, f6⟩ := record_fields b t code
+    have e1 : (step c b (.record t code)).1 = record b t code := rfl
+    have e2 : (step c b (.record t code)).2 = .recorded := rfl
+    rw [e1, e2]
+    refine ⟨f2, by rw [f3], by rw [f3], f4, f5, by rw [f6]; exact Nat.le_refl _, by simp [f3], by simp [f3], ?_⟩
+    intro t0 ht0 hr; rw [f3]; exact ramp_mono _ ht0 hr
+  | check t orc =>
+    cases hf : (checkAndSet c b t orc).2 with
+    | true =>
+      have h2 : (step c b (.check t orc)).1.state = .tripped :=
+        (check_true_fields c b t orc hf).1
+      rw [h2] at h'; cases h'
+    | false =>
+      obtain ⟨_, s2, s3, s4, s5⟩ := check_false c b t orc hf
+      have hl : (checkAndSet c b t orc).1.lastCheck ≥ b.lastCheck := check_lastCheck_ge c b t orc
+      have e1 : (step c b (.check t orc)).1 = (checkAndSet c b t orc).1 := rfl
+      have e2 : (step c b (.check t orc)).2 = .done false := by
+        show Obs.done (checkAndSet c b t orc).2 = _
+        rw [hf]
+      rw [e1, e2]
+      refine ⟨s2, by rw [s3], by rw [s3], s4, s5, hl, by simp [s3], by simp [s3], ?_⟩
+      intro t0 ht0 hr; rw [s3]; exact ramp_mono _ ht0 hr
   | complete t code orc =>
     cases hf : (complete c b t code orc).2 with
     | true =>
